@@ -35,6 +35,15 @@ def handleL6 (cmd : String) (args : List String) : Option String :=
       let sh ← decSh sh; let slot ← decSlot slot; let t ← charsOfHex t
       let r := run (stepOf sh) (slotCtx sh slot) t
       pure s!"{fmtSt r.1} {b01 r.2} ctx={fmtSt (slotCtx sh slot)}").getD "bad-op")
+  | "zshunq", [t] => some ((do
+      let t ← charsOfHex t
+      pure (hexOfChars (zshUnqSq t))).getD "bad-op")
+  | "zshspec", [t] => some ((do
+      let t ← charsOfHex t
+      let e := applyChain zshHelpSpecChain t
+      let r1 := specRun ']' false e
+      let r2 := specRun ':' false e
+      pure s!"{hexOfChars e} {b01 r1.1}{b01 r1.2}{b01 r2.2}").getD "bad-op")
   | "scan", [sh, t] => some ((do
       let sh ← decSh sh; let t ← charsOfHex t
       pure (fmtSt (run (stepOf sh) (.n true) t).1)).getD "bad-op")
